@@ -1,6 +1,7 @@
 import Naga.Sexp
 import Naga.Sem.IR
 import Naga.Sem.IRValid
+import Naga.Model.Compact
 import Naga.Driver.Sem
 namespace Naga.Driver.C13
 open Naga Naga.Sem
@@ -22,10 +23,32 @@ def runIR (irs : Sexp) (inputs : List (Nat × Val)) (lazyEval : Bool := false) :
     | .error .fuel => "skip[fuel]"
     | .error e => "error[" ++ Sem.showErrI e ++ "]"
 
+def parseNode : Sexp → Option Compact.Node
+  | .list (op :: args) => do some { op := ← op.nat?, args := ← args.mapM Sexp.nat? }
+  | _ => none
+
+def showNodes (ns : List Compact.Node) : String :=
+  "nodes" ++ String.join (ns.map (fun n => " (" ++ " ".intercalate ((n.op :: n.args).map toString) ++ ")"))
+
+/-- `(arena (nodes …) (roots …) (named …))` ↦ the model's compacted arena and renumbered roots. -/
+def handleArena (ns rs nm : List Sexp) : String :=
+  match ns.mapM parseNode, rs.mapM Sexp.nat?, nm.mapM Sexp.nat? with
+  | some arena, some roots, some named =>
+    let keep := Compact.mark arena (roots ++ named)
+    if !Compact.closedB arena keep then "MODEL-MASK-NOT-CLOSED"
+    else
+      let rm := Compact.remap keep
+      let out := Compact.compact arena keep
+      s!"{showNodes out} | roots {" ".intercalate (roots.map (fun r => toString (rm.getD r 0)))}"
+  | _, _, _ => "bad-case"
+
 /-- `(c13 (before M) (after M') (inputs …))` ↦ agree / DISAGREE / skip. -/
 def handle (line : String) : String :=
   match Sexp.parseLine line with
   | some [.list [.atom "c13skip"]] => "skip"
+  | some [.list [.atom "arena-skip"]] => "skip"
+  | some [.list [.atom "arena", .list (.atom "nodes" :: ns), .list (.atom "roots" :: rs), .list (.atom "named" :: nm)]] =>
+    handleArena ns rs nm
   | some [.list [.atom "c13", .list [.atom "before", b], .list [.atom "after", a], .list (.atom "inputs" :: ins)]] =>
     match Sem.parseInputs ins with
     | none => "bad-case inputs"
